@@ -90,3 +90,11 @@ reg("C19",
     "Trusted: engine/sgrlex.py (lexical tokeniser). Console wide enough not to wrap; CR/BS/VT/FF excluded; flush of an escape-only pending fragment not judged.",
     "TLA+ specs FileProxy.tla + Sgr.tla; TLC model check over all chunkings + TLC-generated chunkings replayed on the real FileProxy + TLC trace validation (TLC decodes the input and the output stream)",
     "DESIGN.md §4 C19")
+
+reg("C16",
+    "Pretty.tla formalises the literal grammar Rich emits, a recursive-descent evaluator for it written in TLA+ (incl. Python's (x) vs (x,) rule) and the clauses EvalOK / CycleMarker / Abbrev / OneLineIfFits / ExpandedLayout, and transcribes traverse()/_Line.expand()/Node.render(). "
+    "TLC model-checks that transcription as a work-list state machine over every abstract value of a bounded domain (containers of <=2-3 items nested 3 levels, atom cell widths 1-2, optional cycle marker) x widths x indent sizes x expand_all x max_length against all clauses: with the closing-separator rule as released in 9.10.0 TLC exhibits the lost 1-tuple comma, with the repaired rule every invariant holds. "
+    "The domain's values are instantiated and replayed on the real pretty_repr, together with a systematic family and seeded random values nested <= 6 (all nine container kinds, str/bytes/int/float/bool/None leaves, shared and cyclic references) x max_width 1..200 x indent_size x expand_all x max_length x max_string; every real output is tokenised and judged by TLC, which also reports whether the layout model reproduces it token for token (else DRIFT). Bounded conformance checking, not a proof about the Python code.",
+    "Trusted: stdlib tokenize + lexical projection (kind/atom id/gap, '-'NUMBER merged), leaf<->atom id by ast.literal_eval + type, cell width via the tree's cell_len, python object -> abstract value traversal. Assumptions: finite floats; `<class 'T'>` read as factory T; deque maxlen not compared; dict keys are leaves/tuples of leaves; OneLineIfFits only for pure list/tuple/dict/set/frozenset values without cycles/abbreviation/expand_all; abbreviation clauses judge the reported counts and prefix property, not whether Rich abbreviates. quick: M1 63k states, 14k real calls; thorough: M1 1.4M states, 127k real calls.",
+    "TLA+ spec Pretty.tla (evaluator + layout relations + transcription of pretty.py); TLC exhaustive model check of the layout design; TLC-generated values replayed on the real code; TLC record validation of tokenised real outputs with delta-debugged witnesses",
+    "DESIGN.md §4 C16")
